@@ -253,13 +253,20 @@ def runExt (cmd rest : String) : Option String :=
       | .read => let r := voxRead f acc.1; (r.2, acc.2 ++ [s!"{r.1.1}:{r.1.2}"])
       | o => (voxStep f acc.1 o, acc.2)) ((⟨1, 1, 1, 1, none⟩ : VoxSt), [])
     pure (",".intercalate out)
+  -- `thresh <t> | v,v,v` : VoxelNeuron.threshold on voxel coordinates 0..n-1 with these values → `kept voxel indices|kept values`
+  | "thresh" => match rest.splitOn "|" with
+    | [t, vals] => do
+      let vals ← natList? vals
+      let r := thresholdSparse (← (trim t).toNat?) (List.range vals.length) vals
+      pure s!"{showNats r.1}|{showNats r.2}"
+    | _ => none
   | _ => none
 
 end Ext
 
 def run (cmd : String) (rest : String) : Option String :=
   match cmd with
-  | "select" | "info" | "nrrdhdr" | "cols" | "jsonkeys" | "h5meta" | "voxcache" => runExt cmd rest
+  | "select" | "info" | "nrrdhdr" | "cols" | "jsonkeys" | "h5meta" | "voxcache" | "thresh" => runExt cmd rest
   -- table → bytes navis should write, and the parent column a reader should give back
   | "enc_skel" => match rest.splitOn "|" with
     | [rad, rows] => do
